@@ -160,3 +160,23 @@ def in_loop(node, stop):
 
 def is_awaited(call):
     return isinstance(getattr(call, "_parent", None), ast.Await)
+
+
+def handle_type_accepted(close_fi, cls_name):
+    """the closing system function tests isinstance(<value>, cls_name) on a path that a plain cls_name instance can take:
+    none of the conditions dominating that test requires the parameter to be an instance of some other class.
+    -> (found_test, accepted, offending condition text)"""
+    from .flow import path_conditions, split_conj
+    found = False
+    for n in walk_local(close_fi.node):
+        if isinstance(n, ast.Call) and callee_name(n) == "isinstance" and len(n.args) == 2 and cls_name in src(n.args[1]):
+            found = True
+            bad = None
+            for t, pol in path_conditions(n, close_fi.node):
+                for e, p in split_conj(t, pol):
+                    if p and isinstance(e, ast.Call) and callee_name(e) == "isinstance" and len(e.args) == 2 and cls_name not in src(e.args[1]) and src(e.args[0]) == src(n.args[0]):
+                        bad = src(e)
+            if bad is None:
+                return True, True, None
+            last_bad = bad
+    return found, False, (last_bad if found else None)
